@@ -4,6 +4,7 @@
 #define GLM_ENABLE_EXPERIMENTAL
 #include "oracle/oracle_common.hpp"
 #include <glm/glm.hpp>
+#include <glm/gtx/component_wise.hpp>
 #include <glm/ext/vector_common.hpp>
 #include <glm/ext/scalar_common.hpp>
 #include <glm/ext/vector_relational.hpp>
@@ -100,6 +101,21 @@ static void int_functions(Rng& g, int n) { const glm::qualifier Q = glm::default
 #undef IFN
 	}
 }
+// gtx/component_wise: compAdd / compMul / compMin / compMax / fcompMin / fcompMax fold the scalar operation over the components; compNormalize / compScale convert each component
+// between an integer type and [0, 1] (unsigned) or [-1, 1] (signed)
+static void component_wise(Rng& g, int n) { const glm::qualifier Q = glm::defaultp;
+	for (int it = 0; it < n; ++it) {
+#define CW(L) { glm::vec<L, float, Q> a; glm::vec<L, int, Q> ia; for (int i = 0; i < L; ++i) { a[i] = special<float>(g); if (a[i] != a[i]) a[i] = 0.f; ia[i] = (int)(g.next() % 2001) - 1000; } count("component_wise"); \
+		float sa = a[0], sm = a[0], mn = a[0], mx = a[0]; int isum = ia[0], imn = ia[0], imx = ia[0]; for (int i = 1; i < L; ++i) { sa += a[i]; sm *= a[i]; mn = glm::min(mn, a[i]); mx = glm::max(mx, a[i]); isum += ia[i]; imn = glm::min(imn, ia[i]); imx = glm::max(imx, ia[i]); } \
+		bool ok = samez(glm::compAdd(a), sa) && samez(glm::compMul(a), sm) &&   /* the fold starts from 0 (resp. 1): the sign of a zero result is not part of the statement */ samez(glm::compMin(a), mn) && samez(glm::compMax(a), mx) && glm::compAdd(ia) == isum && glm::compMin(ia) == imn && glm::compMax(ia) == imx && samez(glm::fcompMin(a), mn) && samez(glm::fcompMax(a), mx); \
+		glm::vec<L, glm::uint8, Q> u8; glm::vec<L, glm::int16, Q> s16; for (int i = 0; i < L; ++i) { u8[i] = (glm::uint8)g.next(); s16[i] = (glm::int16)g.next(); } auto nu = glm::compNormalize<float>(u8); auto ns = glm::compNormalize<float>(s16); \
+		for (int i = 0; i < L; ++i) { long double wu = (long double)u8[i] / 255, ws = ((long double)s16[i] + 32768) / 65535 * 2 - 1; if (!(fabsl(nu[i] - wu) <= 4e-7L && fabsl(ns[i] - ws) <= 4e-7L)) ok = false; } \
+		auto bu = glm::compScale<glm::uint8>(nu); for (int i = 0; i < L; ++i) if (bu[i] != u8[i] && bu[i] + 1 != u8[i]) ok = false;   /* compScale truncates: the code or its predecessor */ \
+		if (!ok) fail("component_wise", "fold / conversion", "L=" #L " a=" + vs(a), "scalar operation folded over the components; compNormalize = (x - min) / (max - min) mapped to the unit range", "differs"); }
+		FOR_L(CW)
+#undef CW
+	}
+}
 static void lowp_inversesqrt(Rng& g, int n) { for (int it = 0; it < n; ++it) { glm::vec<4, float, glm::lowp> a; for (int i = 0; i < 4; ++i) a[i] = std::ldexp((float)g.real(1, 2), g.range(-60, 60)); auto r = glm::inversesqrt(a); count("inversesqrt_lowp");
 	for (int i = 0; i < 4; ++i) { long double e = 1 / sqrtl((long double)a[i]); if (!(fabsl((long double)r[i] - e) <= e / 256)) { fail("inversesqrt_lowp", "accuracy", vs(a) + " i=" + str(i), str((double)e) + " +- 2^-8", str((double)r[i])); break; } } } }
 int main(int argc, char** argv) {
@@ -110,7 +126,7 @@ int main(int argc, char** argv) {
 #elif defined(ORC_PART_DOUBLE)
 	run_float<double, glm::highp>(g, n);
 #else
-	run_int<int>(g, n); run_int<unsigned>(g, n); run_int<glm::int8>(g, n); run_int<glm::uint8>(g, n); run_int<glm::int16>(g, n); run_int<glm::uint16>(g, n); run_int<glm::int64>(g, n); run_int<glm::uint64>(g, n); int_functions(g, n); lowp_inversesqrt(g, n * 10);
+	run_int<int>(g, n); run_int<unsigned>(g, n); run_int<glm::int8>(g, n); run_int<glm::uint8>(g, n); run_int<glm::int16>(g, n); run_int<glm::uint16>(g, n); run_int<glm::int64>(g, n); run_int<glm::uint64>(g, n); int_functions(g, n); component_wise(g, n); lowp_inversesqrt(g, n * 10);
 #endif
 	return finish();
 }
